@@ -49,7 +49,7 @@ func (m *Machine) isASCIISpace(c *Term) *Term {
 func (m *Machine) requireASCII(s Str, what string) {
 	for _, c := range s.cells {
 		if !m.branch(m.tt.Cmp("bvult", c, m.c8(0x80))) {
-			m.end("unsupported", what+" on non-ASCII input")
+			m.end("assumed", what+" on non-ASCII input (Unicode tables are not modelled; stated restriction)")
 		}
 	}
 }
@@ -98,7 +98,7 @@ func (m *Machine) intrinsic(name string, fn *ssa.Function, args []Value) (Value,
 		for lo < hi {
 			c := s.cells[lo]
 			if !m.branch(tt.Cmp("bvult", c, m.c8(0x80))) {
-				m.end("unsupported", "strings.TrimSpace on non-ASCII input")
+				m.end("assumed", "strings.TrimSpace on non-ASCII input (Unicode tables are not modelled; stated restriction)")
 			}
 			if !m.branch(m.isASCIISpace(c)) {
 				break
@@ -108,7 +108,7 @@ func (m *Machine) intrinsic(name string, fn *ssa.Function, args []Value) (Value,
 		for hi > lo {
 			c := s.cells[hi-1]
 			if !m.branch(tt.Cmp("bvult", c, m.c8(0x80))) {
-				m.end("unsupported", "strings.TrimSpace on non-ASCII input")
+				m.end("assumed", "strings.TrimSpace on non-ASCII input (Unicode tables are not modelled; stated restriction)")
 			}
 			if !m.branch(m.isASCIISpace(c)) {
 				break
@@ -241,7 +241,7 @@ func (m *Machine) strSliceConst(parts []string) Value {
 func (m *Machine) itoaSym(t *Term) Str {
 	tt := m.tt
 	if !m.branch(tt.And(tt.Cmp("bvsle", tt.Const(64, 0), t), tt.Cmp("bvslt", t, tt.Const(64, 100000)))) {
-		m.end("unsupported", "strconv.Itoa on symbolic value outside 0..99999")
+		m.end("assumed", "strconv.Itoa on a symbolic value outside 0..99999 (stated restriction)")
 	}
 	digits := 1
 	for lim := uint64(10); digits < 5; lim *= 10 {
